@@ -111,6 +111,15 @@ int main(int argc, char** argv) {
         if (!(e <= wtol)) violation("WeightedRotation:overloads-disagree:d=" + std::to_string(d), "{\"ctx\":" + ctx + ",\"const\":" + jarr(comps(w1)) + ",\"matrix\":" + jarr(comps(w2)) + "}");
         double eref = maxdiff(comps(w1), B.proj(Wd * Y * (U * A * Ud) * Y * W));
         maxstat("WeightedRotation_vs_reference/tol", eref / wtol);
+        // Yd is taken by const reference and may be the rotated vector itself: the overloads must still agree
+        if (a + 3 >= al.vecs.size()) {
+          SU_vector x1 = mkvec(d, al.vecs[a]), x2 = mkvec(d, al.vecs[a]);
+          x1.WeightedRotation(par, x1, par2); x2.WeightedRotation(Ug.get(), x2, Wg.get());
+          double am2 = amag * amag * 16, xtol = 2 * tol * (1 + am2) * d;
+          double ea = maxdiff(comps(x1), comps(x2));
+          count("evaluations");
+          if (!(ea <= xtol)) violation("WeightedRotation:overloads-disagree-when-Yd-aliases-the-vector:d=" + std::to_string(d), "{\"ctx\":" + ctx + ",\"const\":" + jarr(comps(x1)) + ",\"matrix\":" + jarr(comps(x2)) + "}");
+        }
       }
     }
   }
